@@ -84,6 +84,7 @@ func runC03(c *Check, a *Analysis) {
 	c.Rule("R-LOCK", "Conn.shutdown/closing/pending/streams only under Conn.mutex; Server.codecs under Server.mutex; Server.listeners under Server.mut", 10)
 	ruleLock(c, a, "R-LOCK", "Conn", "shutdown", "closing", "pending", "streams")
 	ruleLock(c, a, "R-LOCK", "Server", "codecs", "listeners")
+	ruleSharedLocalMap(c, a, "R-LOCK")
 
 	// ---- R-RDV-REG
 	c.Rule("R-RDV-REG", "every store into Conn.pending / Conn.streams is control dependent on Conn.shutdown and Conn.closing both read false in the same critical section of Conn.mutex", 2)
